@@ -43,6 +43,9 @@ def run(chk):
                     e["msg"], e["present"], e["variant"], e["arg"], e["keys"], e["textkeys"], e["nulls"], e["de"], e["rt"], e["up"], e["rk"], e["uv"])
             chk.violation({"inv": "C13.Codec", "kind": e["kind"], "msg": e["msg"], "variant": e["variant"], "arg": e["arg"], "byte": e["byte"]},
                           text, {"kind": "ctapcodec", "event": e})
+        if res.get("drift"):
+            chk.note("model-drift: %d status byte(s) fall in another of the library's classes than CtapCodec.tla lists (first: 0x%02x -> %s)" % (
+                len(res["drift"]), ev[res["drift"][0] - 1]["byte"], ev[res["drift"][0] - 1]["class"]))
         total += res["events"]
     chk.cov["evaluations"] += total
     chk.cov["distinct_nontrivial"] += len(cases) + 256
